@@ -115,6 +115,8 @@ fn item(g: &mut Gen, rng: &mut Rng, n: usize) -> Item {
 enum Send {
     One(Op),
     Batch { items: Vec<Item>, timeout_ms: Option<u64> },
+    /// one JSON call through `call_json_with_timeout`
+    JsonCall(Item),
 }
 
 impl Send {
@@ -122,18 +124,21 @@ impl Send {
         match self {
             Send::One(op) => book.add_by_query(expect_of(op)),
             Send::Batch { items, .. } => items.iter().for_each(|it| book.add_by_query(it.expect())),
+            Send::JsonCall(it) => book.add_by_query(Expect { kind: "client call_json request", ..it.expect() }),
         }
     }
     fn bytes(&self) -> u64 {
         match self {
             Send::One(op) => frame_len(op),
             Send::Batch { items, .. } => items.iter().map(|i| i.frame_len()).sum(),
+            Send::JsonCall(it) => it.frame_len(),
         }
     }
     fn shape(&self) -> (u8, usize, Vec<u8>) {
         match self {
             Send::One(op) => (op.notify as u8, 1, vec![size_class(op.len)]),
             Send::Batch { items, timeout_ms } => (2 + timeout_ms.is_some() as u8, items.len(), items.iter().take(12).map(|i| size_class(i.n)).collect()),
+            Send::JsonCall(it) => (4, 1, vec![size_class(it.n)]),
         }
     }
     fn describe(&self) -> Value {
@@ -142,6 +147,7 @@ impl Send {
             Send::Batch { items, timeout_ms } => {
                 json!({"api": if timeout_ms.is_some() {"batch_json_with_timeout"} else {"batch_json"}, "items": items.len(), "timeout_ms": timeout_ms, "largest_item": items.iter().map(|i| i.n).max()})
             }
+            Send::JsonCall(it) => json!({"api": "call_json_with_timeout", "body": it.text_len()}),
         }
     }
 }
@@ -180,6 +186,7 @@ fn run_send_blocking(c: &repe::Client, s: &Send, call_timeout: Duration) -> Outc
             };
             zip_results(items, rs)
         }
+        Send::JsonCall(it) => vec![(it.token, delivered(c.call_json_with_timeout(path_of(it.token), &it.value(), call_timeout)))],
     }
 }
 
@@ -195,6 +202,14 @@ async fn run_send_async(c: &AClient, s: &Send, call_timeout: Duration) -> Outcom
                 (AClient::Ws(c), None) => c.batch_json(reqs).await,
             };
             zip_results(items, rs)
+        }
+        Send::JsonCall(it) => {
+            let (path, v) = (path_of(it.token), it.value());
+            let r = match c {
+                AClient::Tcp(c) => c.call_json_with_timeout(path, &v, call_timeout).await,
+                AClient::Ws(c) => c.call_json_with_timeout(path, &v, call_timeout).await,
+            };
+            vec![(it.token, delivered(r))]
         }
     }
 }
@@ -245,7 +260,7 @@ struct ConnPlan {
 /// Every (kind of interrupted send) x (resume stratum) combination in a seeded order; the follower kind cycles. `k` connection
 /// histories per scenario run take consecutive entries, so a few runs cover the table (one static run counter per lane entry:
 /// every entry belongs to one lane, whose scenarios run sequentially, so the sequence is a function of the seed).
-fn plans_for(seed: u64, slot: usize, k: usize) -> Vec<ConnPlan> {
+fn plans_for(seed: u64, slot: usize, k: usize, any_follow: bool) -> Vec<ConnPlan> {
     static RUNS: [AtomicU64; 8] = [const { AtomicU64::new(0) }; 8];
     let run = RUNS[slot % 8].fetch_add(1, SeqCst) as usize;
     let mut table: Vec<(bool, usize)> = (0..STRATA.len() * 2).map(|i| (i % 2 == 0, i / 2)).collect();
@@ -254,7 +269,7 @@ fn plans_for(seed: u64, slot: usize, k: usize) -> Vec<ConnPlan> {
         .map(|j| {
             let i = run * k + j;
             let (a_is_batch, stratum) = table[i % table.len()];
-            let follow = if !a_is_batch { Follow::Batch } else { [Follow::Call, Follow::Batch, Follow::Notify][(i / 2) % 3] };
+            let follow = if !a_is_batch && !any_follow { Follow::Batch } else { [Follow::Call, Follow::Batch, Follow::Notify][(i / 2) % 3] };
             ConnPlan { a_is_batch, stratum, follow }
         })
         .collect()
@@ -330,10 +345,15 @@ struct History {
     b_in_flight_after_ms: Option<u64>,
     b_same_handle: bool,
     further: Vec<Send>,
+    /// true: NO socket write timeout is configured; the interrupted send is a `*_with_timeout` call (raw, typed slice, JSON, batch)
+    /// whose timeout is `t_ms`. false: `t_ms` is the configured write timeout (blocking) / the caller-side cancellation delay (async)
+    call_timeout_mode: bool,
+    /// the peer resumes at the latest this long after the stall (keeps long call timeouts x late strata affordable)
+    resume_cap_ms: u64,
 }
 
 impl History {
-    fn generate(rng: &mut Rng, g: &mut Gen, plan: ConnPlan, t_ms: u64, ws: bool) -> History {
+    fn generate(rng: &mut Rng, g: &mut Gen, plan: ConnPlan, t_ms: u64, ws: bool, call_timeout_mode: bool) -> History {
         let rcvbuf = *rng.pick(&[32768usize, 65536, 131072]);
         // the client's own send buffer autotunes up to tcp_wmem max (4 MiB by default): the interrupted payload must exceed it
         let big_n = (10usize << 20) + rng.usize_below(2 << 20);
@@ -356,7 +376,22 @@ impl History {
         let (a, big_token, position) = if plan.a_is_batch {
             let (items, p, label) = big_batch(rng, g, big_n);
             let tk = items[p].token;
-            (Send::Batch { items, timeout_ms: Some(rng.range(800, 1500)) }, tk, label)
+            (Send::Batch { items, timeout_ms: Some(if call_timeout_mode { t_ms } else { rng.range(800, 1500) }) }, tk, label)
+        } else if call_timeout_mode {
+            // the large frame goes out through a raw, a typed-slice or a JSON `*_with_timeout` call
+            match rng.below(3) {
+                0 => {
+                    let it = Item { shape: rng.below(2) as u8, ..item(g, rng, big_n) };
+                    let tk = it.token;
+                    (Send::JsonCall(it), tk, "call_json_with_timeout")
+                }
+                k => {
+                    let mut op = g.op(false, big_n);
+                    op.api = (k == 1) as u8;
+                    let tk = op.token;
+                    (Send::One(op), tk, if k == 1 { "call_typed_slice_with_timeout" } else { "call_with_formats_and_timeout" })
+                }
+            }
         } else {
             let mut op = g.op(rng.coin(), big_n);
             if op.notify || !g.typed {
@@ -372,7 +407,12 @@ impl History {
         };
         let b_in_flight_after_ms = if rng.coin() { Some(rng.below(3 * t_ms)) } else { None };
         let further = vec![small_batch(rng, g, Some(400)), Send::One(g.op(true, rng.usize_below(200))), Send::One(g.op(false, rng.usize_below(2000))), small_batch(rng, g, Some(400))];
-        History { plan, resume: resume_of(rng, plan.stratum), t_ms, rcvbuf, x, warm, a, big_token, position, b, b_in_flight_after_ms, b_same_handle: rng.coin(), further }
+        let resume = match (call_timeout_mode, plan.stratum) {
+            // the call gives up only after several send() periods: "long after the deadline" reaches further out here
+            (true, 5) => Resume::AfterPermille(rng.range(6000, 12_000)),
+            _ => resume_of(rng, plan.stratum),
+        };
+        History { plan, resume, t_ms, rcvbuf, x, warm, a, big_token, position, b, b_in_flight_after_ms, b_same_handle: rng.coin(), further, call_timeout_mode, resume_cap_ms: if call_timeout_mode { 1800 } else { 60_000 } }
     }
     fn book(&self) -> Book {
         let mut book = Book::default();
@@ -383,7 +423,7 @@ impl History {
         hash_of(&(self.plan.a_is_batch, self.plan.stratum, self.plan.follow as u8, self.position, self.a.shape(), self.b.shape(), self.b_in_flight_after_ms.is_some(), self.b_same_handle))
     }
     fn params(&self) -> Value {
-        json!({"peer_rcvbuf": self.rcvbuf, "timeout_ms": self.t_ms, "interrupted_send": self.a.describe(), "interrupted_frame": self.position, "big_token": format!("{:#x}", self.big_token),
+        json!({"peer_rcvbuf": self.rcvbuf, "timeout_ms": self.t_ms, "timeout_is": if self.call_timeout_mode {"the call's own timeout (no socket write timeout configured)"} else {"write timeout / caller-side cancellation"}, "interrupted_send": self.a.describe(), "interrupted_frame": self.position, "big_token": format!("{:#x}", self.big_token),
             "peer_stalls_after_bytes_of_interrupted_send": self.x, "peer_resumes": STRATA[self.plan.stratum.min(6)], "resume": format!("{:?}", self.resume),
             "next_send": self.b.describe(), "next_send_issued": match self.b_in_flight_after_ms { Some(ms) => format!("{ms} ms after the stall (first send possibly still in flight)"), None => "after the interrupted send returned".into() },
             "next_send_on": if self.b_same_handle && self.b_in_flight_after_ms.is_none() {"the same handle"} else {"a clone"}, "warmup": self.warm.iter().map(|s| s.describe()).collect::<Vec<_>>(), "further_sends": self.further.len()})
@@ -399,6 +439,8 @@ struct ConnRes {
     trouble: Vec<String>,
     /// the interrupted item / send was reported as failed or its caller abandoned it
     fault: bool,
+    /// the interrupted send had returned to its caller when the peer resumed reading
+    returned_before_resume: bool,
     ev: BatchEvidence,
 }
 
@@ -418,6 +460,23 @@ impl ConnRes {
     fn note_history(&mut self, h: &History) {
         for s in h.warm.iter().chain([&h.a, &h.b]).chain(&h.further) {
             self.note_sent(s);
+        }
+        if h.call_timeout_mode {
+            // blocking `*_with_timeout` calls as the sender of the large frame, no socket write timeout
+            self.ev.add("call_timeout_histories", 1);
+            self.ev.add_owned(format!("call_timeout_large_frame_sent_with_{}", if h.plan.a_is_batch { "batch_json_with_timeout" } else { h.position }), 1);
+            self.ev.add_owned(format!("call_timeout_peer_resumes_{}", STRATA[h.plan.stratum.min(6)]), 1);
+            self.ev.add_owned(format!("call_timeout_ms_{}", match h.t_ms { 0..=120 => "50_120", 121..=300 => "121_300", 301..=600 => "301_600", _ => "601_2000" }), 1);
+            if self.fault {
+                self.ev.add("call_timeout_calls_reported_failed", 1);
+            }
+            if self.returned_before_resume {
+                self.ev.add("call_timeout_calls_returned_while_peer_still_stalled", 1);
+            } else {
+                self.ev.add("call_timeout_calls_still_in_the_call_when_peer_resumed", 1);
+            }
+            self.ev.add(if h.b_in_flight_after_ms.is_some() { "call_timeout_next_send_from_another_thread_during_the_call" } else if h.b_same_handle { "call_timeout_next_send_from_same_thread_after_the_call" } else { "call_timeout_next_send_from_a_clone_after_the_call" }, 1);
+            return;
         }
         self.ev.add("batch_connection_histories", 1);
         if self.fault {
@@ -457,7 +516,10 @@ fn blocking_history(h: &History, addr: std::net::SocketAddr, ctl: &Arc<Ctl>) -> 
     let mut res = ConnRes::default();
     let mut body = || -> Result<(), String> {
         let client = repe::Client::connect(addr).map_err(|e| format!("connect: {e}"))?;
-        client.set_write_timeout(Some(Duration::from_millis(h.t_ms))).map_err(|e| format!("set_write_timeout: {e}"))?;
+        if !h.call_timeout_mode {
+            client.set_write_timeout(Some(Duration::from_millis(h.t_ms))).map_err(|e| format!("set_write_timeout: {e}"))?;
+        }
+        let a_timeout = if h.call_timeout_mode { Duration::from_millis(h.t_ms) } else { Duration::from_secs(1) };
         for s in &h.warm {
             let rs = run_send_blocking(&client, s, Duration::from_secs(30));
             if let Some((_, Err(e))) = rs.iter().find(|(_, r)| r.is_err()) {
@@ -478,7 +540,7 @@ fn blocking_history(h: &History, addr: std::net::SocketAddr, ctl: &Arc<Ctl>) -> 
         let ha = {
             let (c, a, b, a_done) = (client.clone(), h.a.clone(), if b_inline { Some(h.b.clone()) } else { None }, a_done.clone());
             std::thread::spawn(move || {
-                let ra = run_send_blocking(&c, &a, Duration::from_secs(1));
+                let ra = run_send_blocking(&c, &a, a_timeout);
                 a_done.store(true, SeqCst);
                 let rb = b.map(|b| run_send_blocking(&c, &b, Duration::from_secs(1)));
                 (ra, rb)
@@ -504,11 +566,13 @@ fn blocking_history(h: &History, addr: std::net::SocketAddr, ctl: &Arc<Ctl>) -> 
         };
         match h.resume {
             Resume::Immediately => {}
-            Resume::AfterPermille(p) => sleep_until(t_stall + Duration::from_micros(h.t_ms * p)),
+            Resume::AfterPermille(p) => sleep_until(t_stall + Duration::from_micros(h.t_ms * p).min(Duration::from_millis(h.resume_cap_ms))),
+            // (without a write timeout a blocking sender may stay in the write until the peer reads: the peer always resumes)
             Resume::AfterReturn => {
-                wait_until(Duration::from_millis(8 * h.t_ms + 3000), || a_done.load(SeqCst));
+                wait_until(Duration::from_millis((8 * h.t_ms + 3000).min(h.resume_cap_ms + 300)), || a_done.load(SeqCst));
             }
         }
+        res.returned_before_resume = a_done.load(SeqCst);
         ctl.release();
         match join_bounded(ha, Duration::from_secs(40)) {
             Some((ra, rb)) => {
@@ -576,16 +640,45 @@ fn assemble(out: &mut ScenarioOut, hs: Vec<History>, parts: Vec<(ConnRes, Record
 
 /// Blocking client with `set_write_timeout`: `K` independent connections, each with its own history (see module text).
 pub fn client_batch_history(cx: &Cx, rng: &mut Rng, slot: usize) -> ScenarioOut {
-    let mut out = ScenarioOut::new("client", "write_timeout", "client.write_timeout.batch_history");
-    let plans = plans_for(cx.seed, slot, 4);
+    blocking_histories(cx, rng, slot, false)
+}
+
+/// Blocking client WITHOUT any configured write timeout: the large frame is sent by a `*_with_timeout` entry point
+/// (call_with_formats_and_timeout, call_typed_slice_with_timeout, call_json_with_timeout, batch_json_with_timeout) whose timeout
+/// (50 ms .. 2 s) is shorter than the peer's stall; the peer resumes before the deadline, shortly after it, long after it, or once the
+/// call returned (at the latest about 2 s after the stall: such a call may stay in the write until the peer reads); the next send (notify /
+/// call / batch) comes from another thread while the first call is still inside, or from the same thread / a clone after it returned;
+/// then FURTHER traffic. `K` independent connections run in parallel so the stalls overlap.
+pub fn client_call_timeout_history(cx: &Cx, rng: &mut Rng, slot: usize) -> ScenarioOut {
+    blocking_histories(cx, rng, slot, true)
+}
+
+fn blocking_histories(cx: &Cx, rng: &mut Rng, slot: usize, call_timeout_mode: bool) -> ScenarioOut {
+    let mut out = if call_timeout_mode {
+        let mut o = ScenarioOut::new("client", "call_timeout", "client.call_timeout.history");
+        o.sig_site = Some("");
+        o
+    } else {
+        ScenarioOut::new("client", "write_timeout", "client.write_timeout.batch_history")
+    };
+    let plans = plans_for(cx.seed, slot, if call_timeout_mode { 5 } else { 4 }, call_timeout_mode);
     let hs: Vec<History> = plans
         .iter()
         .enumerate()
         .map(|(j, p)| {
             let mut r = rng.fork(10 + j as u64);
             let mut g = Gen::new(&mut r);
-            let t_ms = r.range(150, 300);
-            History::generate(&mut r, &mut g, *p, t_ms, false)
+            let t_ms = if !call_timeout_mode {
+                r.range(150, 300)
+            } else {
+                match r.below(10) {
+                    0..=2 => r.range(50, 120),
+                    3..=5 => r.range(121, 300),
+                    6..=7 => r.range(301, 600),
+                    _ => r.range(601, 2000),
+                }
+            };
+            History::generate(&mut r, &mut g, *p, t_ms, false, call_timeout_mode)
         })
         .collect();
     let mut peers = vec![];
@@ -775,7 +868,7 @@ pub fn aclient_batch_history(cx: &Cx, rng: &mut Rng, kind: AKind, slot: usize) -
     let ep = ep_name(kind);
     let mut out = ScenarioOut::new(ep, "cancel_mid_send", &format!("{ep}.cancel_mid_send.batch_history"));
     let k = if kind == AKind::Ws { 3 } else { 4 };
-    let plans = plans_for(cx.seed, slot, k);
+    let plans = plans_for(cx.seed, slot, k, false);
     let mut cancels = vec![];
     let hs: Vec<Arc<History>> = plans
         .iter()
@@ -785,7 +878,7 @@ pub fn aclient_batch_history(cx: &Cx, rng: &mut Rng, kind: AKind, slot: usize) -
             let mut g = Gen::new(&mut r);
             g.typed = kind != AKind::Ws;
             let t_ms = r.range(100, 250);
-            let mut h = History::generate(&mut r, &mut g, *p, t_ms, kind == AKind::Ws);
+            let mut h = History::generate(&mut r, &mut g, *p, t_ms, kind == AKind::Ws, false);
             let cancel = if p.a_is_batch { *r.pick(&[Cancel::TimeoutWrapper, Cancel::Abort, Cancel::OwnTimeout]) } else { *r.pick(&[Cancel::TimeoutWrapper, Cancel::Abort]) };
             if let Send::Batch { timeout_ms, .. } = &mut h.a {
                 // with and without a per-request timeout; the batch's own timeout as the only interruption is as short as the period
@@ -857,6 +950,8 @@ fn clone_history(h: &History) -> History {
         b_in_flight_after_ms: h.b_in_flight_after_ms,
         b_same_handle: h.b_same_handle,
         further: h.further.clone(),
+        call_timeout_mode: h.call_timeout_mode,
+        resume_cap_ms: h.resume_cap_ms,
     }
 }
 
